@@ -35,6 +35,12 @@ def run(repo, chk, tier):
     chk.trusted_base[:] = ["AST->sympy translator sa/sym.py", "sympy diff / ring normaliser", "sympy assumption engine for sign decisions (cross-checked numerically)"]
     clause_a(repo, chk, tier)
     clause_b(repo, chk, tier)
+    clause_c(repo, chk)
+    # V_y = y' V_x y' for bounded parameters (shared with C07): rows and columns scaled
+    from .c07 import chain_formulas
+
+    chk.rule("B-chain", "E6 on a two-parameter component model: trans_error_matrix returns V_y[i,j] = dy_i V_ij dy_j")
+    chain_formulas(repo, chk, only="cov")
 
 
 def clause_a(repo, chk, tier):
@@ -187,3 +193,95 @@ def clause_b(repo, chk, tier):
     if not (h_ok and inv_ok and err_ok):
         chk.violation("E3-quad", f.key, "hesse-wiring", "parameter errors are no longer sqrt(|diag(inv(Hessian))|) of the Hessian returned by nll_grad_hessian", file=f.mod.rel, line=f.lineno)
     chk.require_count("E3-quad", 4)
+
+
+def clause_c(repo, chk):
+    """cal_err: the gradient list and the error list zipped in sqrt(sum((g*e)^2)) have one entry per argument"""
+    chk.rule("C-align", "cal_err pairs each partial derivative with the error of the same argument: values and errors are collected once per argument in every branch (constants get error 0), gradients once per value")
+    fn = repo.fn("tf_pwa/err_num.py::cal_err")
+    # the final combination
+    zips = [n for n in walk_local(fn.node) if isinstance(n, ast.Call) and isinstance(n.func, ast.Name) and n.func.id == "zip" and len(n.args) == 2]
+    comb = None
+    for z in zips:
+        a, b = [norm_text(x) for x in z.args]
+        comb = (a, b)
+    if comb is None:
+        raise AnalysisError("cal_err: zip(grad, errors) not found")
+    gname, ename = comb
+
+    def builders(name):
+        """how list `name` is filled: [('loop', iter text, per-branch counts) | ('comp', iter text, has filter) | ('call', text)]"""
+        out = []
+        for n in walk_local(fn.node):
+            if isinstance(n, ast.Assign) and isinstance(n.targets[0], ast.Name) and n.targets[0].id == name:
+                v = n.value
+                if isinstance(v, (ast.ListComp, ast.GeneratorExp)):
+                    g0 = v.generators[0]
+                    out.append(("comp", norm_text(g0.iter), bool(g0.ifs) or len(v.generators) > 1))
+                elif isinstance(v, ast.List) and not v.elts:
+                    pass
+                elif isinstance(v, ast.Call):
+                    out.append(("call", norm_text(v)))
+                else:
+                    out.append(("other", norm_text(v)))
+        for lp in [n for n in walk_local(fn.node) if isinstance(n, ast.For)]:
+            def count(stmts):
+                c = 0
+                for st in stmts:
+                    if isinstance(st, ast.Expr) and isinstance(st.value, ast.Call) and isinstance(st.value.func, ast.Attribute) and st.value.func.attr == "append" and norm_text(st.value.func.value) == name:
+                        c += 1
+                return c
+            direct = count(lp.body)
+            branch_counts = []
+            for st in lp.body:
+                if isinstance(st, ast.If):
+                    branch_counts.append((count(st.body), count(st.orelse)))
+            if direct or any(x or y for x, y in branch_counts):
+                out.append(("loop", norm_text(lp.iter), direct, tuple(branch_counts)))
+        return out
+
+    def per_argument(bs, over):
+        """exactly one element per item of an iteration over `over`"""
+        if not bs:
+            return False
+        for b in bs:
+            if b[0] == "comp":
+                if b[2] or over not in b[1]:
+                    return False
+            elif b[0] == "loop":
+                it, direct, branches = b[1], b[2], b[3]
+                if over not in it:
+                    return False
+                per_iter = {direct + x for x, y in branches} | {direct + y for x, y in branches} if branches else {direct}
+                if per_iter != {1}:
+                    return False
+            elif b[0] == "call":
+                continue
+            else:
+                return False
+        return True
+
+    eb = builders(ename)
+    ok_e = per_argument(eb, "args")
+    vb = builders("value")
+    ok_v = per_argument(vb, "args")
+    gb = builders(gname)
+    ok_g = per_argument([b for b in gb if b[0] != "call"], "value") if any(b[0] != "call" for b in gb) else False
+    ok_gcall = all("value" in b[1] for b in gb if b[0] == "call")
+    chk.instance("C-align", "cal_err: zip(%s, %s); errors per argument: %s %s; values per argument: %s; gradient per value: %s, user gradient called on the values: %s" % (gname, ename, ok_e, eb, ok_v, ok_g, ok_gcall))
+    if not (ok_e and ok_v and ok_g and ok_gcall):
+        chk.violation("C-align", fn.key, "alignment", "the lists zipped in sqrt(sum((g*e)^2)) are not built one entry per argument (errors: %s, values: %s, gradient: %s): a constant argument shifts the pairing of derivatives and errors" % (eb, vb, gb), file="tf_pwa/err_num.py", line=fn.lineno)
+    # the combination itself: sqrt(sum((i*j)**2 ...))
+    sq = [n for n in walk_local(fn.node) if isinstance(n, ast.Call) and isinstance(n.func, ast.Attribute) and n.func.attr == "sqrt"]
+    ok_c = False
+    for c in sq:
+        t = norm_text(c)
+        if "sum(" in t and "** 2" in t and "zip(" in t:
+            ge = [x for x in ast.walk(c) if isinstance(x, (ast.GeneratorExp, ast.ListComp))]
+            if ge and isinstance(ge[0].elt, ast.BinOp) and isinstance(ge[0].elt.op, ast.Pow) and isinstance(ge[0].elt.left, ast.BinOp) and isinstance(ge[0].elt.left.op, ast.Mult):
+                tg = {x.id for x in ast.walk(ge[0].generators[0].target) if isinstance(x, ast.Name)}
+                ops = {norm_text(ge[0].elt.left.left), norm_text(ge[0].elt.left.right)}
+                ok_c = ops == tg
+    chk.instance("C-align", "cal_err: err = sqrt(sum((g_i * e_i)**2)): %s" % ok_c)
+    if not ok_c:
+        chk.violation("C-align", fn.key, "combination", "cal_err no longer combines sqrt(sum((g_i*e_i)^2)) over the zipped pairs", file="tf_pwa/err_num.py", line=fn.lineno)
